@@ -23,7 +23,7 @@ RULE = ('output specs: port trees to depth 2 (thorough 3) over names {a, ab, n, 
 RULE += ('; also: list outputs mutated after acceptance, namespace validators objecting to the empty mapping, identity of the objects the future reports')
 ASSUMPTIONS = ['a fresh Process class per case (emitting into a dynamic namespace adds namespaces to the class spec)',
                'reference model written from the statement; namespace creation by earlier emissions is tracked by the model']
-REQUIRED = ['emission_from_exit_hook', 'emissions_from_a_notification', 'own_rule_two_levels_down', 'emissions', 'accepted', 'rejected', 'rejected_valueerror', 'dynamic_accepted', 'nested_paths', 'unchanged_checks', 'listener_checks',
+REQUIRED = ['raising_validator_at_finish', 'emission_from_exit_hook', 'emissions_from_a_notification', 'own_rule_two_levels_down', 'emissions', 'accepted', 'rejected', 'rejected_valueerror', 'dynamic_accepted', 'nested_paths', 'unchanged_checks', 'listener_checks',
             'success/true', 'success/false_by_outputs', 'dict_values', 'identity_checks', 'late_emissions', 'other_separator']
 BOUNDS = {'quick': '300 specs x 12 emission sequences', 'thorough': '3000 specs x 25 sequences'}
 NAMES = ['a', 'ab', 'n', 'x']
@@ -57,9 +57,10 @@ def rand_out_ns(rng, depth, top=False):
     if rng.random() < 0.15:
         attrs['validator'] = 'nsv_no_x'
     elif rng.random() < 0.15:
-        attrs['validator'] = 'nsv_some'  # "at least one result has to be emitted here"
+        # "at least one result has to be emitted here" (every third one says so by raising)
+        attrs['validator'] = 'nsv_some' if rng.random() < 0.67 else 'nsv_some_raises'
     children = {}
-    for name in rng.sample(NAMES, rng.randint(0, 3) if not top or attrs.get('validator') == 'nsv_some' else rng.randint(1, 3)):
+    for name in rng.sample(NAMES, rng.randint(0, 3) if not top or str(attrs.get('validator')).startswith('nsv_some') else rng.randint(1, 3)):
         children[name] = rand_out_ns(rng, depth - 1) if depth > 0 and rng.random() < 0.4 else rand_out_port(rng)
     return ['ns', attrs, children]
 
@@ -449,7 +450,11 @@ def run_case(case):
         valid = valid_at_finish
         exp_success = returned_ok and valid
         exp_result = ret[1] if isinstance(ret, list) else ret
-        if state != 'finished':
+        if state == 'excepted' and not valid and 'nsv_some_raises' in repr(case['spec']):
+            # a validator of a namespace objected to the final outputs by raising: the process has not ended successful (it ended
+            # EXCEPTED with what the validator raised) -- which is all the statement asks of outputs that do not satisfy the spec
+            obs['raising_validator_at_finish'] = 1
+        elif state != 'finished':
             viol.append(V('not-finished', 'not-finished:%s' % state, 'process ended %s (%s) (spec %s, emissions %r)' % (state, exc_desc, shape, case['emissions'])))
         else:
             if same_objects:
